@@ -785,6 +785,11 @@ def render_view(v, root, cookie, param):
     if param:
         md[param[0]] = param[1]
     out = limited(tmpl, root, md) if v.root == 'this' else limited(tmpl, DECOY_CLIENT, md, root=root)
+    return page_tokens(out), resp.cookies.get('tree-s')
+
+
+def page_tokens(out):
+    """the rows of a page: node rows (label, number of links, the link taken apart) and header / footer / leaves rows"""
     toks = []
     for m in ROW.finditer(out):
         cell = m.group(1)
@@ -802,7 +807,7 @@ def render_view(v, root, cookie, param):
             row['anchor'] = (lk.group(1), lk.group(6))
             row['href'] = (lk.group(2), lk.group(3))
         toks.append(row)
-    return toks, resp.cookies.get('tree-s')
+    return toks
 
 
 def expected_tokens(spec, expanded, v, refused):
@@ -1129,6 +1134,469 @@ def options_part(res, r, tier):
                 id_session(r.choice(('plain', 'scalar', 'dup')), (rep, where), force=(where, v), plain=rep % 2 == 0)
 
 
+# --------------------------------------------------------------------------- requests during which something fails
+#
+# Every session above is fault-free: each object answers every question the tag asks.  Here the application fails in the
+# middle of a request, at every point at which the tag asks it something -- while a node's ROW is drawn (the section reads
+# an attribute), in the HEADER / FOOTER / LEAVES document of an expanded node, when the BRANCHES of a node are fetched,
+# when a node is asked for its ID, when an ITEM is fetched through the item guard --, by each mechanism -- the security
+# hook of the template class refuses the attribute (ValidationError), the object's own code raises ValidationError (a
+# nested call was not allowed), the object's own code raises an application error --, under skip_unauthorized and without
+# it, combined with header + footer, leaves, sort / reverse, every way of naming the branches and every container.  The
+# faults come and go between the requests of one session (permissions change, a back end is down for a moment).
+#
+# What the property asks of such a request: EITHER it fails as a whole with the error the application raised (nothing is
+# shown, no cookie is written: the browser keeps the page and the cookie it had, and the next click is one on THAT page),
+# OR a page comes back -- and then that page is a page like any other: its rows are the rows of the reference, every link
+# toggles precisely the node in whose row it stands, the cookie describes the expanded set, the table is closed.  Only
+# under skip_unauthorized ("don't raise an error if unauthorized items are encountered; skip them") may rows be missing:
+# the nodes at which a ValidationError was raised during this request, with everything below them.  Afterwards, with
+# the fault gone, the very same objects and templates must again show exactly what the reference says.
+
+FView = collections.namedtuple('FView', 'root order sortattr branches idopt skip hf leaves hooks urlparam nowrap')
+FAULT_POINTS = ('row', 'header', 'footer', 'leaves', 'branches', 'id')
+FAULT_MECHS = ('guard', 've', 'err')
+FAULT_ATTR = {'f_row': 'row', 'f_hdr': 'header', 'f_ftr': 'footer', 'f_lv': 'leaves',
+              'tpValues': 'branches', 'getKids': 'branches', 'kids': 'branches'}
+
+_faults = {}            # label -> (point, mechanism), set per session
+_armed = [False]        # are the faults there during this request?
+_fired = []             # (label, point, mechanism) of every fault that was raised during this request
+
+
+class AppError(Exception):
+    """what the application's own code raises when it fails"""
+
+
+def _trip(ob, point):
+    f = _faults.get(getattr(ob, 'label', None)) if _armed[0] else None
+    if f and f[0] == point and f[1] != 'guard':
+        from DocumentTemplate.DT_Util import ValidationError
+        _fired.append((ob.label, point, f[1]))
+        raise ValidationError('not allowed here') if f[1] == 've' else AppError('the back end of %s is down' % ob.label)
+
+
+class _FaultAttrs:
+    f_row = property(lambda self: _trip(self, 'row') or '')
+    f_hdr = property(lambda self: _trip(self, 'header') or '')
+    f_ftr = property(lambda self: _trip(self, 'footer') or '')
+    f_lv = property(lambda self: _trip(self, 'leaves') or '')
+
+    def tpId(self):
+        _trip(self, 'id')
+        return super().tpId()
+
+
+class _FaultKids:
+    def tpValues(self):
+        _trip(self, 'branches')
+        return super().tpValues()
+
+    def getKids(self):
+        _trip(self, 'branches')
+        return super().getKids()
+
+    kids = property(getKids)
+
+
+class FaultNode(_FaultAttrs, _FaultKids, LiveNode):
+    pass
+
+
+class FaultDoc(_FaultAttrs, LiveDoc):
+    pass
+
+
+def build_faulty(sp, store, decoy_branches, decoy_id):
+    kids = [build_faulty(k, store, decoy_branches, decoy_id) for k in sp.kids]
+    cont = {'own': list, 'fresh': list, 'tuple': tuple, 'seq': RoSeq}[store](kids)
+    ob = (FaultDoc if sp.doc else FaultNode)(sp, cont, store == 'fresh')
+    ob.sp = sp
+    ob._decoy_branches = decoy_branches
+    ob._decoy_id = decoy_id
+    return ob
+
+
+def fview_source(v):
+    a = []
+    if v.root == 'name':
+        a.append('root')
+    elif v.root == 'expr':
+        a.append('expr="root"')
+    if v.branches:
+        a.append(v.branches)
+    if 's' in v.order:
+        a.append('sort=' + v.sortattr)
+    if 'r' in v.order:
+        a.append('reverse=1')
+    if v.idopt:
+        a.append(v.idopt)
+    if v.hf:
+        a.append('header=hdr2 footer=ftr2')
+    if v.leaves:
+        a.append('leaves=lv2')
+    if v.skip:
+        a.append('skip_unauthorized=1')
+    if v.urlparam:
+        a.append('urlparam="%s"' % URL_PARAM)
+    if v.nowrap:
+        a.append('nowrap=1')
+    return '<dtml-tree%s>[[<dtml-var label>]]<dtml-var f_row></dtml-tree>' % ''.join(' ' + x for x in a)
+
+
+_fviews = {}
+_fdocs = {}
+
+
+def ftemplate_for(v):
+    from DocumentTemplate import HTML
+    from DocumentTemplate.DT_Util import ValidationError
+    if not _fdocs:
+        for name, mark, attr in (('hdr2', 'H', 'f_hdr'), ('ftr2', 'F', 'f_ftr'), ('lv2', 'L', 'f_lv')):
+            _fdocs[name] = HTML('<dtml-var standard_html_header>[[#%s#<dtml-var label>]]<dtml-var %s>'
+                                '<dtml-var standard_html_footer>' % (mark, attr))
+            limited(_fdocs[name].cook)
+
+        class Hooked(HTML):
+            """a template class with the two security hooks of DT_String: items are refused by label, attributes by
+            (label, what the attribute is asked for) while the session's faults are there"""
+
+            def guarded_getitem(self, seq, i):
+                ob = seq[i]
+                if getattr(ob, 'label', None) in _refused:
+                    _fired.append((ob.label, 'item', 'guard'))
+                    raise ValidationError('refused')
+                return ob
+
+            def guarded_getattr(self, ob, name, *default):
+                f = _faults.get(getattr(ob, 'label', None)) if _armed[0] else None
+                if f and f[1] == 'guard' and FAULT_ATTR.get(name) == f[0]:
+                    _fired.append((ob.label, f[0], 'guard'))
+                    raise ValidationError(name)
+                return getattr(ob, name, *default)
+        _fdocs['Hooked'] = Hooked
+    if v not in _fviews:
+        t = (_fdocs['Hooked'] if v.hooks else HTML)(fview_source(v))
+        limited(t.cook)
+        _fviews[v] = t
+    return _fviews[v]
+
+
+def frender(v, root, cookie, param):
+    tmpl = ftemplate_for(v)
+    resp = Resp()
+    md = {'URL': 'http://host/app/tree', 'RESPONSE': resp, 'hdr2': _fdocs['hdr2'], 'ftr2': _fdocs['ftr2'],
+          'lv2': _fdocs['lv2']}
+    if cookie is not None:
+        md['tree-s'] = cookie
+    if param:
+        md[param[0]] = param[1]
+    out = limited(tmpl, root, md) if v.root == 'this' else limited(tmpl, DECOY_CLIENT, md, root=root)
+    return page_tokens(out), resp.cookies.get('tree-s'), (out.count('<table'), out.count('</table>'))
+
+
+def fault_expected(spec, expanded, v, refused):
+    """(kind, label, link, expanded, path, labels of the node and its ancestors below the root) of every row the page
+    must show, from the immutable description: the root's children and, depth first, what is below every expanded node
+    -- header, its children in the order asked for (or the leaves document when it has none), footer"""
+    toks = []
+
+    def visible(node):
+        ks = [k for k in node.kids if not (v.skip and k.label in refused)]
+        if 's' in v.order:
+            ks = sorted(ks, key=lambda k: k.key)
+        if 'r' in v.order:
+            ks = ks[::-1]
+        return ks
+
+    def below(node, p, ks, chain):
+        if v.hf:
+            toks.append(('H', node.label, None, None, p, chain))
+        for k in ks:
+            walk(k, p, chain)
+        if not ks:
+            toks.append(('L', node.label, None, None, p, chain))
+        if v.hf:
+            toks.append(('F', node.label, None, None, p, chain))
+
+    def walk(node, path, chain):
+        p = path + (node.sid,)
+        c = chain + (node.label,)
+        ks = visible(node)
+        link = bool(ks) or v.leaves
+        exp = link and p in expanded
+        toks.append(('row', node.label, link, exp, p, c))
+        if exp:
+            below(node, p, ks, c)
+    ks = visible(spec)
+    if ks:
+        below(spec, (spec.sid,), ks, (spec.label,))
+    return toks
+
+
+def path_labels(spec, path):
+    """labels of the nodes on a path of ids (the root's first), None when the path names no node"""
+    if not path or exact(path[:1]) != exact((spec.sid,)):
+        return None
+    node, out = spec, [spec.label]
+    for x in path[1:]:
+        nxt = [k for k in node.kids if exact((k.sid,)) == exact((x,))]
+        if not nxt:
+            return None
+        node = nxt[0]
+        out.append(node.label)
+    return out
+
+
+def check_fault_page(fail, spec, v, toks, cookie, tables, expanded, refused, may_miss, check_cookie):
+    """a page that came back.  may_miss: labels of the nodes which (with everything below them) may be missing from it;
+    returns the expanded set the browser now holds, or None when the page is wrong"""
+    want = fault_expected(spec, expanded, v, refused)
+    show = lambda seq: [(l if k == 'row' else '%s(%s)' % (k, l)) for k, l in seq]  # noqa
+    got_seq = [(t['t'], t['label']) for t in toks]
+    pairs = []
+    i = 0
+    for w in want:
+        if i < len(toks) and got_seq[i] == (w[0], w[1]):
+            pairs.append((toks[i], w))
+            i += 1
+        elif not (may_miss and set(w[5]) & may_miss):
+            i = -1
+            break
+    if i != len(toks):
+        fail('rows shown %s, expected %s%s' % (show(got_seq), show([(w[0], w[1]) for w in want]),
+                                               (' (of which %s and what is below them may be missing)' % sorted(may_miss))
+                                               if may_miss else ''))
+        return None
+    ok = True
+    for t, w in pairs:
+        if w[0] != 'row':
+            if t['links']:
+                fail('%s document row of %r carries a link' % (w[0], w[1]))
+                ok = False
+            continue
+        _, label, link, exp, p, _c = w
+        if ('kind' in t) != link or t['links'] != (1 if link else 0):
+            fail('node %r: %d links, has children=%s' % (label, t['links'], link))
+            ok = False
+        elif link:
+            if exact(t['path']) != exact(p):
+                fail('link of node %r encodes path %s, expected %s' % (label, t['path'], list(p)))
+                ok = False
+            if (t['kind'] == 'tree-c') != exp:
+                fail('link of node %r is %s but the node is %s' % (
+                    label, 'collapse' if t['kind'] == 'tree-c' else 'expand', 'expanded' if exp else 'collapsed'))
+                ok = False
+            if t['anchor'] != (str(p[-1]), str(p[-1])):
+                fail('link of node %r is anchored at %r, expected %r' % (label, t['anchor'], str(p[-1])))
+                ok = False
+            if t['href'] != ('tree', (URL_PARAM + '&') if v.urlparam else ''):
+                fail('link of node %r leads to %r, expected the page itself%s' % (
+                    label, t['href'], ' with the urlparam' if v.urlparam else ''))
+                ok = False
+    if tables != (1, 1):
+        fail('the page opens %d tables and closes %d' % tables)
+        ok = False
+    if not check_cookie:
+        return set(expanded) if ok else None
+    if cookie is None:
+        fail('no state cookie written')
+        return None
+    sp = cookie_paths(cookie)
+    if sp is None:
+        fail('the state cookie %r cannot be decoded' % cookie[:80])
+        return None
+    sp = {p for p in sp if len(p) > 1}
+    a = {exact(q): q for q in sp}
+    b = {exact(q): q for q in expanded}
+    for k in set(a) ^ set(b):
+        labels = path_labels(spec, a.get(k) or b.get(k))
+        if not (may_miss and labels and set(labels[1:]) & may_miss):
+            fail('cookie describes %s, expected %s' % (sorted(sp, key=repr), sorted(expanded, key=repr)))
+            return None
+    return sp if ok else None
+
+
+def run_fault_session(res, r, spec, store, v, faults, refused, steps, tag):
+    """one browser session on ONE live object tree during which the application's faults come and go"""
+    root = build_faulty(spec, store, bool(v.branches), bool(v.idopt))
+    _refused.clear()
+    _refused.update(refused)
+    _faults.clear()
+    _faults.update(faults)
+    clicks = []
+    case = {'tree [id, sort key, children]': sp_repr(spec), 'children_container': store, 'page': fview_source(v),
+            'template_class_with_security_hooks': v.hooks, 'refused_items': sorted(refused),
+            'faults {node: (raised while, by)}': {k: list(f) for k, f in sorted(faults.items())},
+            'requests (+ = the faults are there)': clicks}
+
+    def fail(what):
+        changed = data_changed(root)
+        if changed:
+            what += ' [the children lists of %s, owned by the application, were changed by rendering]' % changed
+        res.oracle_fail.append({'case': dict(case), 'what': what})
+
+    def request(cookie, param, armed, expanded, check_cookie=True):
+        """-> ('page', toks, cookie, expanded now) | ('refused',) | None when the property is broken"""
+        res.evaluations += 1
+        _armed[0] = armed
+        del _fired[:]
+        try:
+            toks, newc, tables = frender(v, root, cookie, param)
+        except Exception as e:
+            _armed[0] = False
+            from DocumentTemplate.DT_Util import ValidationError
+            kinds = {'ValidationError' if f[2] in ('guard', 've') else 'AppError' for f in _fired}
+            if ('ValidationError' in kinds and isinstance(e, ValidationError)) or ('AppError' in kinds and isinstance(e, AppError)):
+                res.count('fault_requests_that_failed_as_a_whole')
+                return ('refused',)
+            try:
+                msg = str(e)[:200]
+            except Exception:
+                msg = '<no message>'
+            fail('the last request raised %s: %s%s' % (type(e).__name__, msg, (
+                ' (the application had raised %s)' % sorted(kinds)) if kinds else ''))
+            return None
+        _armed[0] = False
+        fired = list(_fired)
+        # rows may be missing only under skip_unauthorized, and only the nodes at which a ValidationError was raised
+        may_miss = {f[0] for f in fired if f[2] in ('guard', 've')} if v.skip else set()
+        if v.skip:
+            may_miss -= {f[0] for f in fired if f[1] == 'item'}     # refused items are not in the reference's rows anyway
+        now = check_fault_page(fail, spec, v, toks, newc, tables, expanded, refused, may_miss, check_cookie)
+        if now is None:
+            return None
+        if fired and [f for f in fired if f[1] != 'item' or not v.skip]:
+            res.count('fault_requests_that_showed_a_page')
+        return ('page', toks, newc, now)
+
+    expanded = set()
+    all_exp = sp_paths_with_kids(spec)
+    cookie = None
+    toks = None
+    n_refused = n_pages = 0
+    for step in range(steps + 1):
+        armed = r.random() < 0.55
+        if toks is None:
+            param, what, target = None, 'GET', set(expanded)
+        else:
+            linked = [t for t in toks if 'kind' in t]
+            opens = [t for t in linked if t['kind'] == 'tree-e']
+            c = r.random()
+            if c < 0.05 and not refused:        # see `rule`: expand_all under an item guard is left out (reported)
+                param, what, target = ('expand_all', 1), 'expand_all', set(all_exp)
+            elif c < 0.08:
+                param, what, target = ('collapse_all', 1), 'collapse_all', set()
+            elif linked:
+                t = r.choice(opens) if opens and r.random() < 0.6 else r.choice(linked)
+                path = tuple(t['path'])
+                param, what = (t['kind'], t['enc']), '%s %s' % (t['kind'], list(path))
+                target = (expanded | {path}) if t['kind'] == 'tree-e' else {p for p in expanded if p[:len(path)] != path}
+            else:
+                param, what, target = None, 'reload', set(expanded)
+        clicks.append(('+ ' if armed else '  ') + what)
+        got = request(cookie, param, armed, target)
+        if got is None:
+            return
+        if got[0] == 'page':
+            _, toks, cookie, expanded = got
+            n_pages += 1
+            continue
+        # the request failed as a whole: the browser still has the old page and the old cookie.  Half of the time the
+        # user reloads once the fault is gone: exactly the old state must be shown (the first page of all: a plain GET)
+        n_refused += 1
+        if r.random() < 0.5:
+            clicks.append('  reload')
+            got = request(cookie, None, False, set(expanded), check_cookie=False)
+            if got is None:
+                return
+            if got[0] == 'page':        # (an item refused without skip_unauthorized stays refused)
+                if toks is None:
+                    toks = got[1]
+                    cookie = got[2]
+                n_pages += 1
+    if n_refused and n_pages >= 2:
+        res.nt(('faults', tag))
+    if n_refused and n_pages >= 3:
+        res.sample({'session_with_faults': dict(case)}, cap=8)
+
+
+def faults_part(res, r, tier):
+    def rand_fview(store, docs, skip, hooks):
+        order = r.choice(ORDERS)
+        if store == 'seq' and 's' in order:
+            order = order.replace('s', '')       # left out (reported): sort needs item assignment
+        branches = r.choice(BRANCHES)
+        if docs and branches.startswith('branches_expr'):
+            branches = 'branches=getKids'        # an expression naming a method a leaf lacks is the template's own error
+        return FView(r.choice(('this', 'name', 'expr')), order, r.choice(('key', 'skey')), branches,
+                     r.choice(('', '', 'id=ident')), skip, r.random() < 0.4, r.random() < 0.35, hooks,
+                     r.random() < 0.2, r.random() < 0.2)
+
+    def points_for(v, node, top):
+        pts = []
+        if not top:
+            pts += ['row', 'row']
+            if not v.idopt:
+                pts.append('id')
+            if v.leaves and not node.kids:
+                pts += ['leaves', 'leaves']
+        if not node.doc:
+            pts.append('branches')
+        if v.hf and (node.kids or v.leaves):
+            pts += ['header', 'footer']
+        return pts
+
+    def session(tag, skip, hooks, point=None, mech=None, steps=None):
+        for attempt in range(30):
+            spec = gen_spec(r, r.randint(4, 12), 3, r.choice(('plain', 'odd', 'int')), r.random() < 0.3, r.random() < 0.5)
+            store = r.choice(STORES)
+            docs = any(n.doc for n in sp_nodes(spec))
+            v = rand_fview(store, docs, skip, hooks)
+            if point in ('header', 'footer'):
+                v = v._replace(hf=True)
+            if point == 'leaves':
+                v = v._replace(leaves=True)
+            if point == 'id':
+                v = v._replace(idopt='')
+            nodes = list(sp_nodes(spec))
+            faults = {}
+            # the fault asked for at a node near the root (so that it is met), then up to two more anywhere
+            for k in range(r.randint(1, 3)):
+                cand = nodes[:1 + len(spec.kids)] if k == 0 else nodes
+                node = r.choice(cand)
+                pts = points_for(v, node, node is spec)
+                if k == 0 and point:
+                    pts = [p for p in pts if p == point]
+                if not pts or node.label in faults:
+                    continue
+                p = r.choice(pts)
+                ms = [m for m in FAULT_MECHS if (m != 'guard' or (hooks and p != 'id'))]
+                m = mech if (k == 0 and mech in ms) else r.choice(ms)
+                faults[node.label] = (p, m)
+            if not faults or (point and not any(f[0] == point for f in faults.values())):
+                continue
+            # items refused by the item guard as well, now and then (not together with leaves: what a node is whose
+            # children are all refused is not said anywhere)
+            refused = pick_refused(r, spec) if (hooks and not v.leaves and r.random() < 0.3) else set()
+            refused -= set(faults)
+            for f in faults.values():
+                res.count('fault_%s_by_%s%s' % (f[0], f[1], '_skip' if skip else ''))
+            res.count('fault_sessions')
+            run_fault_session(res, r, spec, store, v, faults, refused, steps or r.randint(5, 12), tag)
+            return
+    big = tier != 'quick'
+    # every point x every mechanism x with / without skip_unauthorized
+    for point, mech, skip in itertools.product(FAULT_POINTS, FAULT_MECHS, (True, False)):
+        if mech == 'guard' and point == 'id':
+            continue
+        for rep in range(8 if big else 3):
+            session(('grid', point, mech, skip, rep), skip, mech == 'guard' or r.random() < 0.5, point, mech)
+    # random sessions
+    for t in range(2500 if big else 300):
+        session(('random', t), r.random() < 0.6, r.random() < 0.7, steps=r.randint(4, 16))
+
+
 # --------------------------------------------------------------------------- states of every size
 #
 # "for any state size": the state is made large in every way a state can be large -- ONE long id, MANY short ids (wide),
@@ -1379,7 +1847,22 @@ def _run(res, tier, have_driver):
                 'independent decoder; browser sessions on trees whose state grows to 2**15 .. 2**21 bytes (flat, '
                 'chained, bushy trees with ids of up to hundreds of thousands of characters, ASCII or escaped; thousands '
                 'of expanded nodes with ordinary ids), against the set-of-paths reference.  Every compilation, rendering and codec call runs under a time limit of 10 s: no result = '
-                'failure, three of them end the search.  Left out because the unchanged library '
+                'failure, three of them end the search.  Requests during which the application fails (oracle only): '
+                'browser sessions of 4..16 requests on one live object tree in which 1..3 nodes fail while the tag asks '
+                'them something -- while the node\'s row is drawn, in the header / footer / leaves document of the '
+                'expanded node, when its branches are fetched (method, expression, attribute), when it is asked for its '
+                'id, when the item guard hands it out -- by {the security hook of the template class refusing the '
+                'attribute, the object raising ValidationError itself, the object raising an application error}, with '
+                'and without skip_unauthorized (full grid point x mechanism x skip, then random sessions), combined with '
+                'header+footer, leaves, sort / reverse, every way of naming root / branches / id and every container, '
+                'with and without the security hooks; the faults are there in about half of the requests of a session '
+                'and gone in the others.  Such a request either fails as a whole with the error the application raised '
+                '(nothing shown, no cookie: the next click is one on the page the browser still has, and a reload '
+                'without the fault must show exactly the old state), or a page comes back, and then its rows are those '
+                'of the reference, every link carries the path of its own row\'s node and the right direction, the '
+                'cookie describes the expanded set and the table is closed; only under skip_unauthorized may the nodes '
+                'at which a ValidationError was raised in this request be missing (with what is below them).  '
+                'Left out because the unchanged library '
                 'fails them (reported, see partial): prefix=, sort on equal keys, sort on a read-only sequence, a page '
                 'without sort after a page with sort on the container\'s own list, expand_all with refused items, bytes '
                 'ids, ids in which a high surrogate is followed by a low one; '
@@ -1456,6 +1939,8 @@ def _run(res, tier, have_driver):
         res.count('assume_children_histories')
     # the tag's options, on live application data rendered again and again (oracle only: outside the model)
     options_part(res, common.rng('C20/options'), tier)
+    # requests during which the application fails (oracle only: outside the model)
+    faults_part(res, common.rng('C20/faults'), tier)
     # states of every size: the codec on a ladder of exact sizes in six forms, the tag on trees with large / many ids
     rs = common.rng('C20/sizes')
     size_codec_part(res, rs, tier)
@@ -1502,6 +1987,11 @@ def _run(res, tier, have_driver):
                        'directly followed by a low surrogate as two code points (JSON reads the two escapes back as '
                        'ONE astral character: the node can never be expanded); ids that are not JSON scalars (a tuple '
                        'comes back as a list)')
+    res.partial.append('requests during which the application fails are decided by the oracle only (either the request '
+                       'fails as a whole with the application\'s error, or the page that comes back is right); not '
+                       'generated there: single, assume_children, items refused by the item guard together with leaves '
+                       '(nothing says what a node is whose children are all refused), a failing sort attribute (the tag '
+                       'swallows the error of a sort method and then compares the methods)')
 
 
 def search_more(res, tier):
